@@ -5,5 +5,19 @@ CLASSES = {
   'MessageSink': dict(path='MessageSink', bases=[], fields={'_next': 'Channel?'}),
   'ClientMessageSink': dict(path='ClientMessageSink', bases=['MessageSink'], fields={'_on_faulted': 'Observable'}),
   'Observable': dict(extern=True, path=None, fields={'value': 'any'}, bases=[]),
+  'SinkStack': dict(path='SinkStack', bases=[], fields={'_stack': 'deque[tuple[any,any]]'}),
+  'ClientMessageSinkStack': dict(path='ClientMessageSinkStack', bases=['SinkStack'], fields={}),
+  # a request/reply message: only its properties dictionary is visible to the sinks verified here
+  'Message': dict(extern=True, path=None, fields={'properties': 'dict[str,any]'}, bases=[]),
 }
-FUNCTIONS = {}
+FUNCTIONS = {
+  'SinkStack.Push': dict(
+    cls='SinkStack', params={'sink': 'any', 'context': 'any'},
+    requires=['sink is not None'],
+    ensures=['len(self._stack) == old(len(self._stack)) + 1',
+             'self._stack[len(self._stack) - 1][0] == sink', 'self._stack[len(self._stack) - 1][1] == context',
+             'forall(k, 0, old(len(self._stack)), self._stack[k][0] == old(self._stack[k][0]) and self._stack[k][1] == old(self._stack[k][1]))'],
+    modifies=['deque[tuple[any,any]]'],
+    props=['C01', 'C04'],
+  ),
+}
